@@ -434,6 +434,48 @@ func scHygiene(what string) func(x *vs.Exec) {
 	}
 }
 
+// retry: the owner fails to deliver the work connection for a first request; a later request for the same, still
+// registered proxy must be served all the same ("a response is sent to exactly the two controls involved").
+func scRetry(x *vs.Exec) {
+	defer sw.Guard()
+	w := sw.New(x, sw.Opt{AllowPorts: sw.P(20000, 20001), UserConnTimeout: 5, HeartbeatTimeout: -1})
+	owner := w.MustLogin("owner", sw.LoginOpt{User: "u1"})
+	vis := w.MustLogin("vis", sw.LoginOpt{User: "u2"})
+	if r := owner.Reg(&msg.NewProxy{ProxyName: "p", ProxyType: "xtcp", Sk: sk, AllowUsers: []string{"u2"}}); !strings.HasPrefix(r, "ok") {
+		vs.Fail("setup: %s", r)
+		return
+	}
+	owner.OnSid = func(p *sw.Peer, sid string) {
+		p.Send(&msg.NatHoleClient{TransactionID: "c-" + sid, ProxyName: "p", Sid: sid, MappedAddrs: []string{"7.7.7.7:100", "7.7.7.7:100"}})
+	}
+	owner.OnReq = func(*sw.Peer) {} // the owner does not deliver work connections for now
+	w.Quiesce()
+	send := func(tx string) {
+		ts := w.Now()
+		vis.Send(&msg.NatHoleVisitor{TransactionID: tx, ProxyName: "p", Protocol: "quic", Timestamp: ts, SignKey: util.GetAuthKey(sk, ts), MappedAddrs: []string{"8.8.8.8:200", "8.8.8.8:200"}})
+	}
+	answered := func(tx string) (bool, string) {
+		for _, m := range vis.Inbox {
+			if r, ok := m.(*msg.NatHoleResp); ok && r.TransactionID == tx {
+				return true, r.Error
+			}
+		}
+		return false, ""
+	}
+	vs.SetInterest(true)
+	send("v1")
+	time.Sleep(40 * time.Second) // the first attempt fails: no work connection within the user-connection timeout
+	owner.AutoWork()
+	send("v2")
+	vs.BlockFor("second-answer", 60*time.Second, func() bool { ok, _ := answered("v2"); return ok })
+	vs.SetInterest(false)
+	if ok, e := answered("v2"); !ok || e != "" {
+		vs.Fail("after one request whose work connection the owner failed to deliver, a second request for the same registered xtcp proxy gets no instruction (answered=%v error=%q)", ok, e)
+	}
+	time.Sleep(150 * time.Second)
+	w.Teardown()
+}
+
 // sign: a session is created only for a correctly signed request — also when the proxy's secret key is empty.
 func scSign(skKind, signKind string) func(x *vs.Exec) {
 	return func(x *vs.Exec) {
@@ -506,6 +548,10 @@ func scenarios() {
 			s.Body = scSign(f[1], f[2])
 			s.Horizon = 1000 * time.Second
 			s.End = sw.StdEnd
+		case "retry":
+			s.Body = scRetry
+			s.Horizon = 1000 * time.Second
+			s.End = sw.StdEnd
 		case "hyg":
 			s.Body = scHygiene(f[1])
 			s.Horizon = 1000 * time.Second
@@ -560,7 +606,8 @@ func main() {
 	b := drv.Pick(c, 2, 3)
 	hyg := []string{"plain", "report", "close", "unknownsid", "dupclient", "ownercut", "visitorcut"}
 	for i, h := range hyg {
-		c.ExploreBoth("hyg/"+h, b, 1.0/float64(len(hyg)-i))
+		c.ExploreBoth("hyg/"+h, b, 1.0/float64(len(hyg)-i+1))
 	}
+	c.ExploreBoth("retry", 1, 0.5)
 	c.Finish()
 }
